@@ -187,6 +187,7 @@ class EngineAI:
                           '_build_response', 'build_error_response', '_set_protocol_version', '_verify_credential',
                           '_is_valid_date', '_track_date_attributes'}
         self.attr_types = {}
+        self.reasons = None
 
     def _byenum_tags(self):
         t = self.src.tree(AVF)
@@ -578,6 +579,10 @@ class Interp:
                     self.ev_event('attr_read', e, var=ov, attr=fld.a, missing=missing, obj=o.describe())
                 elif fname == 'setattr':
                     self.mutation(e, ov, fld.a, 'setattr', e.args[2] if len(e.args) > 2 else None, st)
+                if fname == 'getattr' and ov:
+                    # the value read is the same projection as obj.<field> (with the default for classes lacking it)
+                    kind = {'cryptographic_usage_masks': 'masks', 'value': 'value', '_object_type': 'type', 'object_type': 'type', 'state': 'state'}.get(fld.a, 'field:' + fld.a)
+                    return V('proj', kind, ov)
             elif o is not None and fname in ('getattr', 'setattr'):
                 self.ev_event('dynamic_field', e, var=ov, call=fname, field=U(e.args[1]))
                 if fname == 'setattr':
@@ -836,7 +841,9 @@ class Interp:
             if o is not None:
                 if target.attr == 'state':
                     c = v.a[1] if isinstance(v, V) and v.tag == 'const' and isinstance(v.a, tuple) and v.a[0] == 'State' else None
+                    rs_ = st.env.get('#reason')
                     self.ev_event('state_store', target, var=ov, before=sorted(o.states), target=c, origin=o.origin,
+                                  reasons=(sorted(rs_.a[1]) if isinstance(rs_, V) and rs_.tag == 'const' and isinstance(rs_.a, tuple) and rs_.a[0] == 'ReasonSet' else None),
                                   missing=sorted(t for t in o.types if 'state' not in self.ai.fields[t]))
                     st.env[ov] = o.w(states=frozenset([c]) if c else STATES)
                 self.mutation(target, ov, target.attr, 'store', getattr(target._parent, 'value', None), st)
@@ -946,6 +953,26 @@ class Interp:
             return st
         if isinstance(test, ast.Compare) and len(test.ops) == 1:
             l, op, r = test.left, test.ops[0], test.comparators[0]
+            # the revocation reason of this request: every comparison with RevocationReasonCode members narrows the set of reasons
+            # possible on the path (recorded with each state store: COMPROMISED only under the compromise reasons)
+            rset = None
+            rm = enum_member(r, 'RevocationReasonCode')
+            if rm and isinstance(op, (ast.Is, ast.Eq, ast.IsNot, ast.NotEq)):
+                rset, positive = {rm[1]}, isinstance(op, (ast.Is, ast.Eq)) == pol
+            elif isinstance(r, (ast.List, ast.Tuple, ast.Set)) and r.elts and all(enum_member(x, 'RevocationReasonCode') for x in r.elts) and isinstance(op, (ast.In, ast.NotIn)):
+                rset, positive = {enum_member(x)[1] for x in r.elts}, isinstance(op, ast.In) == pol
+            if rset is not None:
+                self.ev_quiet(l, st)
+                if ai.reasons is None:
+                    from .polmodel import enum_table
+                    ai.reasons = frozenset(enum_table(ai.src, 'RevocationReasonCode'))
+                cur = env.get('#reason')
+                cur = cur.a[1] if isinstance(cur, V) and cur.tag == 'const' and isinstance(cur.a, tuple) and cur.a[0] == 'ReasonSet' else ai.reasons
+                new_ = (cur & rset) if positive else (cur - rset)
+                if not new_:
+                    return None
+                env['#reason'] = V('const', ('ReasonSet', frozenset(new_)))
+                return st
             lv = self.ev_quiet(l, st)
             rv = self.ev_quiet(r, st)
             if isinstance(r, ast.Constant) and r.value is None and isinstance(lv, V) and lv.tag == 'retsplit' and isinstance(op, (ast.Is, ast.IsNot, ast.Eq, ast.NotEq)):
@@ -1008,7 +1035,11 @@ class Interp:
                         ss = frozenset(s for s in o.states if (s == em[1]) == eq)
                         if not ss:
                             return None
-                        env[lv.b] = o.w(states=ss)
+                        ts = o.types
+                        if eq:
+                            # an object whose state equals a State member has a state (matters when it was read with getattr(o, 'state', None))
+                            ts = frozenset(t for t in o.types if 'state' in ai.fields[t]) or o.types
+                        env[lv.b] = o.w(states=ss, types=ts)
                     elif isinstance(r, (ast.List, ast.Tuple, ast.Set)) and isinstance(op, (ast.In, ast.NotIn)):
                         ms = [enum_member(x, 'State') for x in r.elts]
                         if all(ms):
